@@ -89,6 +89,30 @@ def scenarios_c13(seed, tier):
                                        settings_args(ci, si, ms) + ["--point", point, "--occ", str(occ), "--pre", "4",
                                                                     "--more", "3", "--fork-depth", "1",
                                                                     "--tag", "f%d_%d_%d_%d%s%d" % (seed, ci, si, ms, point, occ)]))
+        # crashed run vs uninterrupted control, continuing after the crash with more blocks and a reorg
+        pts = CRASH_POINTS if tier == "thorough" else ["post_commit_main", "post_savepoint_delete_commit", "post_savepoint_create_commit", "post_block"]
+        combos = [(pre, more, later, depth) for pre in (4, 6, 7) for more in (2, 3) for later in (0, 1, 2) for depth in (2, 3, 4)]
+        for point in pts:
+            sel = combos
+            if tier == "quick":
+                sel = [c for i, c in enumerate(combos) if i % 9 == seed % 9]
+            for (pre, more, later, depth) in sel:
+                for occ in ([1, 2] if tier == "quick" else [1, 2, 3]):
+                    add((ci, si, ms), _gen(WORK + "/g", "crashpair", seed * 41 + occ, 1,
+                                           settings_args(ci, si, ms) + ["--point", point, "--occ", str(occ), "--pre", str(pre), "--more", str(more),
+                                                                        "--later", str(later), "--depth", str(depth),
+                                                                        "--tag", "cp%d_%d_%d_%d%s%d_%d%d%d%d" % (seed, ci, si, ms, point, occ, pre, more, later, depth)]))
+        # random histories with crashes (below); first: the default spacing, where the recoverable window is wide
+        # enough for savepoint bookkeeping that went stale in a crash to matter at a later reorg
+        if (ci, si, ms) == settings[0]:
+            dci, dsi, dms = 5000, 10, 2
+            for point in ["post_savepoint_create_commit", "post_savepoint_delete_commit", "post_commit_main"]:
+                for (pre, more, later, depth) in [(21, 10, 1, 5), (21, 10, 3, 8), (21, 12, 2, 6), (11, 10, 1, 4), (31, 10, 2, 7)]:
+                    for occ in [1, 2]:
+                        add((dci, dsi, dms), _gen(WORK + "/g", "crashpair", seed * 43 + occ, 1,
+                                                  settings_args(dci, dsi, dms) + ["--point", point, "--occ", str(occ), "--pre", str(pre), "--more", str(more),
+                                                                                  "--later", str(later), "--depth", str(depth),
+                                                                                  "--tag", "cq%d%s%d_%d_%d_%d_%d" % (seed, point, occ, pre, more, later, depth)]))
         # random histories with crashes
         add((ci, si, ms), _gen(WORK + "/g", "proto", seed + 17, 4 if tier == "quick" else 40,
                                settings_args(ci, si, ms) + ["--ops", "24", "--no-forks", "--crash-points", ",".join(CRASH_POINTS),
